@@ -254,6 +254,8 @@ type attemptRec struct {
 	auth string // Authorization header of the request
 	method string
 	ctxEnded bool // the request's context had already ended when the request reached the server
+	url, ctype string
+	clen       int64 // Request.ContentLength as the transport would frame the body
 	beh  behaviour
 }
 
@@ -287,7 +289,8 @@ func (s *server) RoundTrip(req *http.Request) (*http.Response, error) {
 		b = s.script[s.pos]
 	}
 	s.pos++
-	rec := attemptRec{t: int64(time.Since(s.start)), auth: req.Header.Get("Authorization"), method: req.Method, beh: b}
+	rec := attemptRec{t: int64(time.Since(s.start)), auth: req.Header.Get("Authorization"), method: req.Method, beh: b,
+		url: req.URL.String(), ctype: req.Header.Get("Content-Type"), clen: req.ContentLength}
 	if req.Body != nil {
 		if b.Read < 0 {
 			rec.got, _ = io.ReadAll(req.Body)
@@ -703,6 +706,29 @@ func scriptCaseRun(t *testing.T, c *scriptCase) {
 		if !bytes.Equal(r.got, want) {
 			fail("body-truncated", fmt.Sprintf("attempt %d received %d bytes (prefix ok=%v), the body has %d and the server read up to %d",
 				i, len(r.got), bytes.HasPrefix(data, r.got), len(data), r.beh.Read))
+			break
+		}
+	}
+	// O1b: a re-sent request is the same request: method, URL, Content-Type as on the first attempt
+	// with that method, and the Content-Length the caller (generator) gave it -- a real transport
+	// frames the body by it, so a stale or reset value truncates or breaks the upload
+	firstOf := map[string]attemptRec{}
+	for i, r := range obs.log {
+		f, seen := firstOf[r.method]
+		if !seen {
+			firstOf[r.method] = r
+			f = r
+		}
+		if r.url != f.url || r.ctype != f.ctype {
+			fail("request-changed", fmt.Sprintf("attempt %d: %s %s (Content-Type %q) differs from the first %s %s (%q)", i, r.method, r.url, r.ctype, f.method, f.url, f.ctype))
+			break
+		}
+		wantLen := int64(len(data))
+		if c.Body[0] == 'N' || c.UnknownLen || upload && r.method == http.MethodPost {
+			wantLen = 0
+		}
+		if r.clen != wantLen {
+			fail("request-changed", fmt.Sprintf("attempt %d: Content-Length %d, the request was built with %d", i, r.clen, wantLen))
 			break
 		}
 	}
